@@ -203,6 +203,23 @@ theorem rsamd5_agrees_with_library (dec : Bytes → Bytes × Bool) (chunk : Nat)
     have : (dec pk).1.length < 3 := by omega
     simp [this, hlib]
 
+/-- **RSAMD5 tag = the library's, without a base64 hypothesis, for unwrapped
+key texts** whose every 256-character chunk but the last holds only alphabet
+characters (any well-formed unwrapped key, and any text that is malformed or
+padded only in its last chunk). Full statement, still resting on the named
+hypothesis `hfed`: `rsamd5_agrees_with_library` (any text). Missing for the
+full strength: "the decoder ignores CR/LF wherever they stand" for wrapped
+texts and an error-prefix argument for a decode error before the last chunk;
+both are exercised on every run by the RSAMD5 sweep. -/
+theorem rsamd5_agrees_with_library_unwrapped_partial (flags proto : Nat) (pk : Bytes) (t : Nat)
+    (hnl : NLFree pk) (hclean : ChunksClean SdnsVerif.Gen.C14.key_tag_chunk (pk.length + 1) pk)
+    (hlib : libKeyTag b64Decode flags proto 1 pk = some t) :
+    keyTag b64Decode SdnsVerif.Gen.C14.key_tag_chunk 5456 t flags proto 1 pk = t :=
+  rsamd5_agrees_with_library b64Decode _ flags proto pk t
+    (rsamd5Fed_unwrapped _ (by decide) (by decide) (pk.length + 1) pk (by omega) hnl hclean) hlib
+
+example : keyTag b64Decode 256 5456 (0x0203) 257 3 1 [65, 81, 73, 68, 66, 65, 61, 61] = 0x0203 := by decide
+
 example : rsamd5KeyTag (fun s => (s, true)) 4 [1, 2, 10, 3, 4, 5, 6, 7] = 5 * 256 + 6 := by decide
 example : rsamd5KeyTag (fun s => (s, true)) 4 [1, 10, 2] = 0 := by decide
 
